@@ -38,27 +38,40 @@ inductive Out where
   | invalid        -- the op violates a documented precondition: outside every quantifier
   deriving DecidableEq, Repr
 
+/-! ### association lists (Go maps, kernel tables) -/
+
+def aget {κ ν : Type} [BEq κ] (m : List (κ × ν)) (k : κ) : Option ν :=
+  (m.find? (fun e => e.1 == k)).map (·.2)
+
+def adel {κ ν : Type} [BEq κ] (m : List (κ × ν)) (k : κ) : List (κ × ν) :=
+  m.filter (fun e => !(e.1 == k))
+
+/-- assign: replace the value in place when the key exists, append otherwise -/
+def aset {κ ν : Type} [BEq κ] : List (κ × ν) → κ → ν → List (κ × ν)
+  | [], k, v => [(k, v)]
+  | e :: m, k, v => if e.1 == k then (k, v) :: m else e :: aset m k v
+
 /-- The reference model: every Create/Open yields an independent descriptor; hard links share an
 inode; a deleted file stays readable through open descriptors. -/
 structure Ref where
   dirs : List String
   inodes : List Bytes                          -- inode number = index
   dirents : List ((String × String) × Nat)     -- (dir, name) ↦ inode; at most one entry per key
-  fds : List (Option (Nat × FMode))            -- descriptor = index; `none` once closed
+  fds : List (Nat × (Nat × FMode))             -- open descriptors: creation index ↦ (inode, mode)
+  nfds : Nat                                   -- descriptors handed out so far
   deriving Repr
 
-def Ref.empty : Ref := { dirs := [], inodes := [], dirents := [], fds := [] }
+def Ref.empty : Ref := { dirs := [], inodes := [], dirents := [], fds := [], nfds := 0 }
 
-def Ref.lookup (s : Ref) (d n : String) : Option Nat :=
-  (s.dirents.find? (fun e => e.1 == (d, n))).map (·.2)
-
-def Ref.unlink (s : Ref) (d n : String) : List ((String × String) × Nat) :=
-  s.dirents.filter (fun e => !(e.1 == (d, n)))
+def Ref.lookup (s : Ref) (d n : String) : Option Nat := aget s.dirents (d, n)
 
 def sortNames (ns : List String) : List String := ns.mergeSort (fun a b => decide (a ≤ b))
 
 /-- `ReadAt`: exactly the bytes of `[off, off+len)` that exist. -/
 def readRange (data : Bytes) (off len : Nat) : Bytes := (data.drop off).take len
+
+def namesIn (dirents : List ((String × String) × Nat)) (d : String) : List String :=
+  sortNames ((dirents.filter (fun e => e.1.1 == d)).map (·.1.2))
 
 def Ref.step (s : Ref) : Op → Ref × Out
   | .mkdir d => if s.dirs.contains d then (s, .invalid) else ({ s with dirs := d :: s.dirs }, .ok)
@@ -68,29 +81,30 @@ def Ref.step (s : Ref) : Op → Ref × Out
       | some _ => (s, .nofd)                                   -- exists: fails without side effects
       | none =>
         ({ s with inodes := s.inodes ++ [[]],
-                  dirents := ((d, n), s.inodes.length) :: s.dirents,
-                  fds := s.fds ++ [some (s.inodes.length, .append)] }, .fd s.fds.length)
+                  dirents := aset s.dirents (d, n) s.inodes.length,
+                  fds := aset s.fds s.nfds (s.inodes.length, .append),
+                  nfds := s.nfds + 1 }, .fd s.nfds)
   | .append k data =>
-    match s.fds[k]? with
-    | some (some (ino, .append)) =>
+    match aget s.fds k with
+    | some (ino, .append) =>
       ({ s with inodes := s.inodes.set ino ((s.inodes.getD ino []) ++ data) }, .ok)
     | _ => (s, .invalid)
   | .close k =>
-    match s.fds[k]? with
-    | some (some _) => ({ s with fds := s.fds.set k none }, .ok)
-    | _ => (s, .invalid)
+    match aget s.fds k with
+    | some _ => ({ s with fds := adel s.fds k }, .ok)
+    | none => (s, .invalid)
   | .open_ d n =>
     if !s.dirs.contains d then (s, .invalid)
     else match s.lookup d n with
-      | some ino => ({ s with fds := s.fds ++ [some (ino, .read)] }, .fd s.fds.length)
+      | some ino => ({ s with fds := aset s.fds s.nfds (ino, .read), nfds := s.nfds + 1 }, .fd s.nfds)
       | none => (s, .invalid)
   | .readAt k off len =>
-    match s.fds[k]? with
-    | some (some (ino, .read)) => (s, .bytes (readRange (s.inodes.getD ino []) off len))
+    match aget s.fds k with
+    | some (ino, .read) => (s, .bytes (readRange (s.inodes.getD ino []) off len))
     | _ => (s, .invalid)
   | .delete d n =>
     match s.lookup d n with
-    | some _ => ({ s with dirents := s.unlink d n }, .ok)
+    | some _ => ({ s with dirents := adel s.dirents (d, n) }, .ok)
     | none => (s, .invalid)
   | .link od on nd nn =>
     if !s.dirs.contains od || !s.dirs.contains nd then (s, .invalid)
@@ -99,14 +113,14 @@ def Ref.step (s : Ref) : Op → Ref × Out
       | some ino =>
         match s.lookup nd nn with
         | some _ => (s, .bool false)
-        | none => ({ s with dirents := ((nd, nn), ino) :: s.dirents }, .bool true)
+        | none => ({ s with dirents := aset s.dirents (nd, nn) ino }, .bool true)
   | .atomic d n data =>
     if !s.dirs.contains d then (s, .invalid)
     else ({ s with inodes := s.inodes ++ [data],
-                   dirents := ((d, n), s.inodes.length) :: s.unlink d n }, .ok)
+                   dirents := aset s.dirents (d, n) s.inodes.length }, .ok)
   | .list d =>
     if !s.dirs.contains d then (s, .invalid)
-    else (s, .names (sortNames ((s.dirents.filter (fun e => e.1.1 == d)).map (·.1.2))))
+    else (s, .names (namesIn s.dirents d))
 
 def Ref.run (s : Ref) : List Op → Ref × List Out
   | [] => (s, [])
@@ -114,5 +128,8 @@ def Ref.run (s : Ref) : List Op → Ref × List Out
     let r := s.step op
     let rest := Ref.run r.1 ops
     (rest.1, r.2 :: rest.2)
+
+/-- A history is valid when no op violates a documented precondition. -/
+def Ref.valid (s : Ref) (ops : List Op) : Bool := !(s.run ops).2.contains .invalid
 
 end GooseVerif.Model.Fs
